@@ -6,6 +6,38 @@ import os
 HERE = os.path.dirname(os.path.dirname(os.path.abspath(__file__)))
 
 CHECKS = {
+    'C06': dict(
+        category='model_checking', design_ref='DESIGN.md section 3, C06',
+        technique='explicit-state BFS over call histories on a real Sector (replayed on fresh objects), dedup on (implementation state, reference state), ledger reference model compared after every transition',
+        text='All histories up to depth 3 (quick) / 4 (thorough) over 57 operations (AddCashFlow with 13 term spellings x defining expression x income flag, 3 income exclusions, '
+             '12 pre-existing definitions incl. three spellings of zero): F == LAG_F + signed sum, INC == signed sum of non-excluded income flows, definition rule; emitted F/INC rows for depth <= 2.',
+        note='Trusted: mc/exact evaluator, the 15-line ledger. Exclusions are read as non-retroactive.'),
+    'C09': dict(
+        category='exploration', design_ref='DESIGN.md section 3, C09',
+        technique='bounded-exhaustive enumeration of full Cartesian parameter grids for the bundled builders, each point solved by the library and compared period by period with a closed-form recursion over exact rationals (gap oracle)',
+        text='1 248 points (quick): SIM / SIMEX1 (alpha1 x alpha2 x theta x 4 G-paths x initial wealth x initial expectation), PC (+ lambda0..2, r-path, initial stocks none/book/all-cash), ModelSIMiterative; '
+             'Y, T, YD, C, H/V, bills, money for k = 1..horizon at solver tolerance 1e-12 and at the default tolerance.',
+        note='Grid points only (<= 4-decimal parameters); ConvergenceError counts as indeterminate. PC: household-side series.'),
+    'C13': dict(
+        category='exploration', design_ref='DESIGN.md section 3, C13',
+        technique='bounded-exhaustive enumeration of (expression, renaming map) pairs for the three public utilities and for Term/Equation/EquationBlock.ReplaceTokensFromLookup; independent regex scanner + evaluation under renamed environments',
+        text='5.1 million pairs (quick): all expressions of <= 3 tokens over the full atom alphabet and <= 5 tokens over a reduced one, compact and padded, x all maps of size <= 2 (swaps, chains, prefixes, absent names, placeholder-shaped targets).',
+        note='Trusted: the 10-line scanner regex and Python eval. Output spacing is free; comparison is token-wise.'),
+    'C16': dict(
+        category='model_checking', design_ref='DESIGN.md section 3, C16',
+        technique='exhaustive enumeration of call histories (retrieval / flag changes / caller-side mutation / rendering) replayed on freshly solved real objects; immutable snapshot reference compared after every transition',
+        text='34 184 histories (quick, depth 3 over 33 operations on Model.GetTimeSeries / EquationSolver / TimeSeriesHolder, depth 4 on a BaseSolver subclass): return value == snapshot slice, stored holders == snapshot, rendering == independent rendering of the snapshot and repeatable.',
+        note='Trusted: the deep snapshot and the 10-line reference renderer.'),
+    'C17': dict(
+        category='model_checking', design_ref='DESIGN.md section 3, C17',
+        technique='exhaustive enumeration of job sequences executed inside one interpreter (process-wide counters and logger state leak between jobs) against baselines computed in separate fresh processes',
+        text='5 888 sequences (quick): all pairs over 16 jobs x 4 diagnostics settings and all triples over a reduced alphabet; each job\'s complete TimeSeries must equal its fresh-process baseline; re-parsed solvers report exactly the new block.',
+        note='Two baseline interpreters per job are diffed first. Worker processes run many sequences back to back, which only lengthens the histories.'),
+    'C19': dict(
+        category='exploration', design_ref='DESIGN.md section 3, C19',
+        technique='bounded-exhaustive table enumeration on the real TimeSeriesHolder and solver wrapper, parsed back by an independent TSV parser',
+        text='75 951 renderings (quick): every subset of <= 4 of 11 series names x 9 value rotations x 3 length profiles x 5 formats; solved blocks through EquationSolver.GenerateCSVtext(format), holder and step-trace; header, order, row count, every cell.',
+        note='Alphabetical = code-point or case-insensitive order.'),
     'C02': dict(
         category='exploration', design_ref='DESIGN.md section 3, C02',
         technique='bounded-exhaustive enumeration of equation blocks x solver configurations run on the real EquationSolver; three-valued residual oracle derived from the stop test',
@@ -96,7 +128,7 @@ CHECKS = {
         note='Trusted: stdlib ast/fractions and the 200-line evaluator in mc/exact.py. Bounded: term alphabet of 21 spellings, 38 leading forms, depth 3 (quick) / 5 (thorough); Term-object histories over 2 equations to depth 4/5; arithmetic leading expressions only.'),
 }
 
-NOT_YET = 'check not built yet in this session (planned, see DESIGN.md section 3)'
+NOT_YET = 'check not built yet (see DESIGN.md section 3)'
 
 
 def main():
